@@ -135,11 +135,21 @@ def prefix_sid(tokeniser: Any) -> PrefixSid:  # noqa: C901
     except Exception as e:
         raise ValueError(f'could not parse BGP PrefixSid attribute: {e}') from None
 
-    if int(label_sid) < pow(2, 32):
-        sr_attrs.append(SrLabelIndex.make_labelindex(int(label_sid)))
+    # the label index is 32 bits, the SRGB base and range are 24 bits (RFC 8669 3.1 and 3.2)
+    if not label_sid.isdigit() or int(label_sid) >= pow(2, 32):
+        raise ValueError(
+            f"'{label_sid}' is not a valid bgp-prefix-sid label index\n  Must be a number from 0 to {pow(2, 32) - 1}"
+        )
+    sr_attrs.append(SrLabelIndex.make_labelindex(int(label_sid)))
 
     for srgb in srgb_data:
-        if len(srgb) == SRGB_TUPLE_SIZE and int(srgb[0]) < pow(2, 24) and int(srgb[1]) < pow(2, 24):
+        if (
+            len(srgb) == SRGB_TUPLE_SIZE
+            and srgb[0].isdigit()
+            and srgb[1].isdigit()
+            and int(srgb[0]) < pow(2, 24)
+            and int(srgb[1]) < pow(2, 24)
+        ):
             srgbs.append((int(srgb[0]), int(srgb[1])))
         else:
             raise ValueError('could not parse SRGB tupple')
